@@ -274,6 +274,13 @@ def run(ctx):
                         sites += sorted(thread_roots(F, name, F.spawn_closures()))
         ctx.check(sites and set(sites) == {W.name}, "R13.5", "shutting-down-only-in-drain", "CommandStatus::ShuttingDown is produced only by the worker's drain arm", detail=str(sorted(set(sites))))
 
+    # ---- R13.7 (= C12 R12.3/R12.4) an acknowledgement answered by the drain (or just before shutdown) wakes whoever waits on
+    # it *now*: poll registers the current waker, completion wakes the registered one.  Otherwise a caller that polled once and
+    # then awaits from another task is never woken although its status was recorded
+    for o in ctx.own_of("c12"):
+        if o["rule"] in ("R12.3", "R12.4") and any(x in o["key"] for x in ("registers-current-waker", "registration-dominates-flag-load", "wake-exists", "some-waker-is-woken", "wake-from-slot")):
+            ctx._add(o["status"], "R13.7", o["key"].split("|", 1)[1], o["desc"], o["where"], o["detail"])
+
     senders_all = set(A.send_fns)
     ch = True
     while ch:
